@@ -445,7 +445,7 @@ func C12(r *ev.Report) {
 	wit := alpha.ReductionWitnesses(ref.P)
 	vals = alpha.WithWitnesses(vals, ref.P)
 
-	r.Rule("internal/field called directly from the in-module harness: Add/Subtract/Multiply/CMove(0|1)/Equals on all ordered pairs of V_p (canonical- and Montgomery-structured limb products closed under negation and +-1) in the aliasing shapes distinct, e=u, e=v (every pair) and u=v, e=u=v (diagonal); Negate/Square/Set/Invert (aliased and not), IsZero/Sgn0/Bytes on all of V_p; SqrtRatio on V_p x a 48-value slice; FromBytesWithReduce on limb-product strings and the window around p; HashToFieldElement on the 6-limb product of 48-byte strings and around multiples of p; non-trivial = both operands >= 2^64")
+	r.Rule("internal/field called directly from the in-module harness: Add/Subtract/Multiply/CMove(0|1)/Equals on all ordered pairs of V_p (canonical- and Montgomery-structured limb products closed under negation and +-1) in the aliasing shapes distinct, e=u, e=v (every pair) and u=v, e=u=v (diagonal); Negate/Square/Set/Invert (aliased and not), IsZero/Sgn0/Bytes on all of V_p; SqrtRatio on V_p x a 48-value slice; FromBytesWithReduce on limb-product strings and the window around p; HashToFieldElement on the 6-limb product of 48-byte strings, on top words steered against the fold constant 2^256 mod p and around multiples of p; unary sweeps and parser also on the solved members (operands whose Montgomery quotient digits are structured; inputs for which ToMontgomery takes its final subtraction), Multiply also on the solved quotient pairs; non-trivial = both operands >= 2^64")
 	r.Bound("values", len(vals))
 	r.Bound("pair_values", len(pairVals))
 	r.Bound("solved_quotient_pairs", len(wit.Pairs))
